@@ -63,9 +63,10 @@ CLAIMED.update({
         "design_ref": "DESIGN.md section 8 (C04)",
     },
     "C06": {
-        "text": "TLC enumerates every call history (set-labels / set-options / compute / foreign-compute) of the engine model Engine.tla up to a bound; "
+        "text": "TLC enumerates every call history (set-labels / set-options / compute / foreign-compute / re-measure) of the engine model Engine.tla up to a bound; "
                 "each maximal history is replayed on one real Force and every compute is compared with a fresh engine on fresh labels for the "
-                "configuration the model predicts (accumulated options); seeded random longer histories are validated the same way.",
+                "configuration the model predicts (accumulated options, current measurements of the label objects) AND with a layout computed in a process "
+                "that has no history at all (forked before the first library call); seeded random longer histories are validated the same way.",
         "note": "The model abstracts the layout function (specified in Chain/Vpsc) and tracks only cross-call state; stale aspects are modelled as flags. "
                 "Reported alongside (drift only, no verdict): conformance of labella.node.Node with the heap model NodeHeap.tla along TLC-generated "
                 "and random call histories (every observer of every node after every call).",
@@ -169,11 +170,12 @@ CLAIMED.update({
 CLAIMED.update({
     "C07": {
         "text": "Both exports of every generated dataset/configuration are parsed into an abstract drawing and TLC evaluates, per back-end: one dot/link/"
-                "box per datum, dots and ticks on the exact affine image of the datum's own time (BigNat cross-multiplication on milliseconds, so a "
-                "lost time of day is visible), dots on the axis, link shape (starts at its dot, one curve per layer through the stub positions of the "
-                "root path, ends at the middle of the axis-facing edge of its own box), box size, verbatim text, tick text = the format the spec's "
-                "TimeFormat selects (calendar in TLA+).",
-        "note": "Control points of the curves and TeX rendering are not constrained; TikZ texts are compared for ASCII texts only (C19 covers conversion).",
+                "box per datum, dots and ticks on the exact affine image of the datum's own time (BigNat cross-multiplication on microseconds, so a "
+                "lost time of day or sub-millisecond part is visible), dots on the axis line and inside its two ends, link shape (starts at its dot, one curve per layer through the stub positions of the "
+                "root path, ends at the middle of the axis-facing edge of its own box), box size, verbatim text, tick text = the formatted value of the tick's position (linear: reads back as the tick value; time: what the "
+                "scale's own formatter gives for that tick; the spec's model of the time format is compared as drift only).",
+        "note": "Control points of the curves and TeX rendering are not constrained; TikZ texts are compared for texts without accented characters (C19 covers conversion). Data include date, datetime (with microseconds) and datetime.time values, "
+                "wall-clock times around daylight-saving changes, bare markers of width 0.",
         "technique": "trace validation of parsed SVG/TikZ exports against TLA+ drawing predicates (TLC, exact arithmetic); TLA+ render model",
         "design_ref": "DESIGN.md section 8 (C07)",
     },
